@@ -2,8 +2,8 @@
     the new input is a contiguous run of characters of the old input within the length bound (characters / bytes),
     the new target is a trimmed contiguous piece of the old target; no index is ever out of range. *)
 From TU Require Import RNG_Model RNG_Proofs.
-From TU Require Import Base UAX29_Model UAX29_Proofs NFKC_Model NFKC_Proofs NFKC_Clean C06_Model C06_Subseq C14_Seeded.
-From TU Require Import C11_Model C11_Proofs C11_UAX29 Pipeline_Model Pipeline_Proofs.
+From TU Require Import Base UAX29_Model UAX29_Proofs NFKC_Model NFKC_Proofs NFKC_Clean NFKC_Graph C06_Model C06_Subseq C14_Seeded.
+From TU Require Import C11_Model C11_Proofs C11_UAX29 Pipeline_Model Pipeline_Proofs Pipeline_Proofs2.
 Require Import Lia ZifyBool ZifyNat ZifyN.
 Local Open Scope nat_scope.
 
@@ -221,3 +221,25 @@ Proof.
     f_equal. apply cslice_split; assumption.
 Qed.
 End SubTop.
+
+(** * Clean, Normalize, WhitespaceCorruption on the input, code-point mode: C11 + NFKC + C14 composed.  For a text
+    whose cleaned form has none of the 52 code points whose compatibility decomposition contains White_Space (KF3), the
+    normalised cleaned text is clean again, and C14's clauses hold of the pipeline's output relative to it. *)
+Lemma cnw_pipeline_c14 : forall opq f iw dw x i,
+  let s1 := clean (singletons (it_in x)) in
+  (match f with NFKC | NFKD => forall c, In c s1 -> ~ In c nfkc_makes_space | _ => True end) ->
+  let t := normalize_model f false s1 in
+  exists c,
+    preproc opq (CChain [CClean PInput false; CNormalize PInput f false; CWsCorrupt PInput iw dw false]) x i
+      = ROk (mk_item c (it_tg x), i)
+    /\ C10_Model.strip_cp c = C10_Model.strip_cp t /\ cleansb t = true /\ cleansb c = true
+    /\ exists ops, C10_Model.operations (singletons c) (singletons t) = Some ops /\ length ops = length c
+                   /\ C10_Model.repair (singletons c) ops = Some t.
+Proof.
+  intros opq f iw dw x i s1 Hkf t.
+  assert (Hs1 : cleansb s1 = true) by (apply clean_clean_seg, wf_singletons).
+  assert (Ht : cleansb t = true) by (apply normalize_keeps_clean_l; assumption).
+  destruct (Pipeline_Proofs2.ws_corrupt_cp iw dw (i_seed i) t Ht) as (c & Hc & Hstrip & Hclean & Hops).
+  exists c. split; [|auto].
+  cbn [Pipeline_Model.preproc apply_part rbind it_in it_tg seg_of]. fold s1. fold t. rewrite Hc. reflexivity.
+Qed.
